@@ -42,7 +42,8 @@ class Matmul(Function):
         # input_1 gradient
         if any(ctx.needs_input_grad[2:]):
             rhs = rhs.unsqueeze(-1) if (rhs.ndimension() == 1) else rhs
-            grad_output_matrix = grad_output.unsqueeze(-1) if grad_output.ndimension() == 1 else grad_output
+            # the forward pass squeezed the last dimension iff the right-hand side was a vector
+            grad_output_matrix = grad_output.unsqueeze(-1) if len(rhs_shape) == 1 else grad_output
             arg_grads = ctx.representation_tree(*matrix_args)._bilinear_derivative(grad_output_matrix, rhs)
 
         # input_2 gradient
@@ -52,14 +53,14 @@ class Matmul(Function):
             else:
                 linear_op = ctx.representation_tree(*matrix_args)
 
-            if grad_output.dim() == 1:
+            if len(rhs_shape) == 1:
                 # Confusing Cublas_Sgemv bug when grad_output is single dimensional on GPU.
                 rhs_grad = linear_op._t_matmul(grad_output.unsqueeze(-1)).squeeze(-1)
             else:
                 rhs_grad = linear_op._t_matmul(grad_output)
 
             # For broadcasting
-            if rhs_grad.dim() > len(rhs_shape):
-                rhs_grad = rhs_grad.reshape(-1, *rhs_shape).sum(0)
+            if rhs_grad.shape != rhs_shape:
+                rhs_grad = rhs_grad.sum_to_size(rhs_shape)
 
         return tuple([None] + [rhs_grad] + list(arg_grads))
